@@ -32,6 +32,8 @@ pub enum Piece {
     Close,
     /// `q;` repeated n times, one token each
     Filler(u8),
+    /// a string literal of `len` ASCII characters with one wide character at `wide_at`
+    LongStr { len: u16, wide_at: u16 },
 }
 
 #[derive(Clone, Debug, Hash, Serialize, Deserialize)]
@@ -85,6 +87,11 @@ fn piece_text(p: &Piece) -> (String, Vec<u32>) {
         Piece::Str(i) => (pick(STRINGS, *i).to_string(), vec![0]),
         Piece::Pad(i) => (pick(PADS, *i).to_string(), vec![0]),
         Piece::Close => ("}".to_string(), vec![0]),
+        Piece::LongStr { len, wide_at } => {
+            let len = *len as usize;
+            let at = *wide_at as usize % (len + 1);
+            (format!("\"{}é{}\"", "x".repeat(at), "y".repeat(len - at)), vec![0])
+        }
         Piece::Filler(n) => {
             let n = *n as u32;
             ("q;".repeat(n as usize), (0..n).map(|k| 2 * k).collect())
@@ -305,7 +312,7 @@ fn check(c: &Case, obs: &mut Obs) -> Verdict {
     // queries
     let mut qs: Vec<(u32, u32)> = vec![(0, 0), (u32::MAX, u32::MAX)];
     // long programs (window tests): query around the far end and the beginning only
-    let many = p.tokens.len() > 100;
+    let many = p.tokens.len() > 100 || p.lines.iter().any(|l| l.len() > 700);
     for (i, t) in p.tokens.iter().enumerate() {
         if many && i > 3 && i + 14 < p.tokens.len() {
             continue;
@@ -520,8 +527,26 @@ fn window(_t: Tier) -> BoxedStrategy<Case> {
         .boxed()
 }
 
+/// Declarations followed by more than a kilobyte of text on the same line (string literals
+/// with a wide character at a generated byte offset): token text is read far from the line end.
+fn long_lines(_t: Tier) -> BoxedStrategy<Case> {
+    (0u8..16, 980u16..1100, any::<u16>(), proptest::option::weighted(0.9, 0u8..6), vec(spec(), 0..4), any::<bool>())
+        .prop_map(|(name, len, wide_at, orig, mut tail, before)| {
+            let func = PieceSpec { piece: Piece::Func(name), keep: [true, true, false], names: [None, orig, None] };
+            let long = PieceSpec { piece: Piece::LongStr { len, wide_at }, keep: [true, false, false], names: [None; 3] };
+            let call = PieceSpec { piece: Piece::Call(name), keep: [true, false, false], names: [None; 3] };
+            let mut line = if before { vec![long.clone(), func] } else { vec![func, long.clone()] };
+            tail.retain(|s| !matches!(s.piece, Piece::Filler(_)));
+            line.append(&mut tail);
+            line.push(call);
+            Case { lines: vec![line], extra: vec![], extra_candidates: vec![], index_offset: None }
+        })
+        .boxed()
+}
+
 fn subs() -> Vec<Sub> {
     vec![
+        gen_sub("long_lines", long_lines, |t| t.pick(600, 12_000), check),
         gen_sub("programs", programs, |t| t.pick(6_000, 200_000), check),
         gen_sub("window_boundary", window, |t| t.pick(600, 12_000), check),
     ]
